@@ -230,7 +230,29 @@ def composite(pid):
     return run
 
 
-PROPS = {"C17": C17, "C18": C18}
+C16_FUNCS = None   # every function of linkedGeo.c / vertexGraph.c / the multipolygon path that allocates
+
+
+def C16(ctx):
+    from . import rules_alloc, rules_linked
+    ctx.explanation = ("Memory clause of C16 only. R-ALLOC typestate on every allocating function of the multipolygon path (normalizeMultiPolygon, "
+                       "findPolygonForHole, addVertexNode, builders): scratch arrays freed on every path, no double free. R-OWN L2-L5: a local vertex "
+                       "graph is destroyed on every path after initialisation (a failing initialiser destroys it itself), cellsToLinkedMultiPolygon "
+                       "destroys the result before returning an error, normalizeMultiPolygon frees a hole it cannot place, and every struct type the "
+                       "builders allocate is freed in the call tree of destroyLinkedMultiPolygon / destroyVertexGraph.")
+    for cfg in (["release", "assert"] if ctx.tier == "thorough" else ["release"]):
+        m = module(cfg, "ssa")
+        cg = rules_alloc.call_graph(m)
+        fns = rules_alloc.reachable(cg, ["cellsToLinkedMultiPolygon", "destroyLinkedMultiPolygon"])
+        only = {f.name for f in m.defined() if f.name in fns}
+        nsites, nfun = rules_alloc.check_alloc(ctx, m, cfg, set(), only=only)
+        ctx.floor("R-ALLOC", "allocation sites on the multipolygon path (%s)" % cfg, nsites, 7)
+        rules_linked.check(ctx, m, cfg)
+    ctx.assumptions += ["allocation failure inside linkedGeo.c / vertexGraph.c is an assert (compiled out with NDEBUG): NULL results are not tested there, so only leak / double-free typestate applies",
+                        "the outline itself (loop count, winding, area) is not decided: it depends on bit-level agreement of vertex coordinates and a float hash"]
+
+
+PROPS = {"C16": C16, "C17": C17, "C18": C18}
 for _pid in PARTS:
     PROPS[_pid] = composite(_pid)
 
